@@ -103,12 +103,16 @@ CHECKS = {
         note=NOTE_COMMON + "Partial: well-formedness/canonicity of decoded multi types and collections, and the real allocator, are decided per explored input.",
     ),
     "C20": dict(
-        technique="Lean 4 theorems parametric in the distance function (index-list shape, mask monotonicity, scan/split invariants) + bit-exact float correspondence + exact rational oracle",
+        technique="Lean 4 theorems parametric in the distance function (index-list shape; the explicit-stack worker with fuel 2*size is proved to terminate having marked exactly the recursive split tree; threshold guarantee between consecutive retained points by induction over that tree) + bit-exact float correspondence + exact rational oracle",
         text="For every distance function, comparison, threshold and size: the result is strictly increasing and in range, all points are returned below three, "
              "first and last are always kept (mask monotonicity by induction over the worker's fuel), and every split index is strictly inside its segment "
-             "and carries the maximal distance found. The threshold guarantee and idempotence are evaluated per run in exact rational arithmetic against "
-             "Go's output, with the Lean Float mirror reproducing Go's indexes bit for bit.",
-        note=NOTE_COMMON + "Partial: 'every omitted point within threshold' and idempotence are oracle-checked, not proved.",
+             "and carries the maximal distance found. C20_loop_is_recursion: with the fuel 2*size the stack loop works the whole line off (cost <= 2(e-s)-1) and "
+             "marks exactly the recursive split tree; C20_retained_members; C20_threshold: for consecutive returned indexes i<j every omitted k between them has "
+             "not dist(i,j,k) > threshold^2, for every size, threshold^2 >= 0 and distance function whose comparison is a strict weak order. Idempotence and the "
+             "exact-distance reading of the float run are evaluated per run in exact rational arithmetic against Go's output, with the Lean Float mirror "
+             "reproducing Go's indexes bit for bit.",
+        note=NOTE_COMMON + "Partial: idempotence is oracle-checked, not proved; the threshold theorem is about the distance values the code computes (float distances in the run), "
+             "their agreement with exact distances is judged by the rational oracle with a 1e-9 relative slack.",
     ),
     "C10": dict(
         technique="Lean 4 theorems over ordered commutative rings (determinant identities, antisymmetry, cyclic invariance, filter exits, integer-grid exactness) + bit-exact correspondence of the filter stage (verif hook) + exact rational sign oracle",
